@@ -346,7 +346,7 @@ pub struct KzgCase {
     pub sel: u64,
 }
 
-fn kzg_case() -> impl Strategy<Value = KzgCase> {
+pub fn kzg_case() -> impl Strategy<Value = KzgCase> {
     (
         any::<u16>(),
         any::<u16>(),
@@ -369,7 +369,7 @@ fn kzg_case() -> impl Strategy<Value = KzgCase> {
         })
 }
 
-fn check_kzg(c: &KzgCase, ctx: &mut CaseCtx) -> Result<(), Failure> {
+pub fn check_kzg(c: &KzgCase, ctx: &mut CaseCtx) -> Result<(), Failure> {
     let Ok(keys) = kzg_keys(c.max, c.supported, c.hiding_key, c.seed) else { return Ok(()) };
     let powers = keys.powers();
     let mut crng = rng(c.sel ^ 0x11);
@@ -436,7 +436,7 @@ fn check_kzg(c: &KzgCase, ctx: &mut CaseCtx) -> Result<(), Failure> {
         format!("variant {}: batch={}, single={single:?}, claims {a},{b}", c.variant, dec[0])
     })?;
     if c.variant <= 3 {
-        ctx.check(dec[0] == all_true, sig(P, "kzg10", "batch_check", "wrong_decision"), || {
+        ctx.check(dec[0] == all_true, sig(P, "kzg10", "batch_check", if dec[0] { "false_batch_accepted" } else { "true_batch_rejected" }), || {
             format!("variant {}: batch={}, all claims true={all_true}", c.variant, dec[0])
         })?;
     }
@@ -457,7 +457,7 @@ pub struct SkCase {
     pub seed: u8,
 }
 
-fn sk_case() -> impl Strategy<Value = SkCase> {
+pub fn sk_case() -> impl Strategy<Value = SkCase> {
     (
         proptest::collection::vec((any::<u16>(), any::<u64>(), 0u8..4), 2..=6),
         proptest::collection::vec(fraw_point(), 2..=6),
@@ -476,7 +476,7 @@ fn sk_case() -> impl Strategy<Value = SkCase> {
         })
 }
 
-fn check_sk(c: &SkCase, ctx: &mut CaseCtx) -> Result<(), Failure> {
+pub fn check_sk(c: &SkCase, ctx: &mut CaseCtx) -> Result<(), Failure> {
     let polys: Vec<Vec<Fr>> = c.polys.iter().map(|(l, s, k)| sk_poly(*l, *s, *k)).collect();
     let points = distinct_points(&c.points);
     let maxlen = polys.iter().map(|p| p.len()).max().unwrap();
@@ -519,6 +519,58 @@ fn check_sk(c: &SkCase, ctx: &mut CaseCtx) -> Result<(), Failure> {
     ctx.check(accepted(&r) == all_true, sig(P, "skzg", "verify_multi_points", if all_true { "true_batch_rejected" } else { "false_batch_accepted" }), || {
         format!("variant {}: decision {}, claims ({pa},{za}) ({pb},{zb})", c.variant, r.describe())
     })
+}
+
+/// The batch scenarios of this module seen from C02 / C03: only *false acceptances* count (a batch with a
+/// false claim, with cancelling errors, or with tampered proof elements that is accepted); disagreements
+/// on the completeness side are C05's and C01's business and are dropped here.
+pub fn only_false_acceptance<'a, C>(
+    prop: &str,
+    c: &C,
+    ctx: &mut CaseCtx<'a>,
+    inner: impl FnOnce(&C, &mut CaseCtx<'a>) -> Result<(), Failure>,
+) -> Result<(), Failure> {
+    let mut ic = CaseCtx::new_like(ctx);
+    let r = inner(c, &mut ic);
+    ctx.absorb(ic);
+    match r {
+        Err(f) if f.sig.contains("accepts_what_single_checks_reject") || f.sig.contains("false_batch_accepted") || f.sig.contains("false_claim_accepted") => {
+            ctx.fail(f.sig.replacen("C05:", &format!("{prop}:"), 1), f.msg)
+        }
+        Err(_) => {
+            ctx.label("completeness_side_disagreement(C05)");
+            Ok(())
+        }
+        Ok(()) => Ok(()),
+    }
+}
+
+/// units "correlated false claims in a batch" for another property (C02, C03)
+pub fn correlated_units(prop: &'static str) -> Vec<Box<dyn Unit>> {
+    let mut units: Vec<Box<dyn Unit>> = Vec::new();
+    macro_rules! add {
+        ($s:ty, $q:expr, $t:expr) => {
+            units.push(PropUnit::new(
+                format!("{prop}:{}:correlated-false-claims", <$s as Scheme>::NAME),
+                $q,
+                $t,
+                4,
+                |_| case().prop_filter("a variant with a false claim or a tampered proof", |c| !matches!(c.variant, 0 | 5 | 6 | 7 | 8)).boxed(),
+                move |c: &Case, ctx: &mut CaseCtx| only_false_acceptance(prop, c, ctx, |c, ctx| check_trait::<$s>(c, ctx)),
+            ));
+        };
+    }
+    add!(Marlin, 100, 1000);
+    add!(Sonic, 100, 1000);
+    add!(Ipa, 60, 600);
+    add!(Pst13, 100, 1000);
+    units.push(PropUnit::new(format!("{prop}:kzg10:correlated-false-claims"), 200, 2000, 2, |_| kzg_case().boxed(), move |c: &KzgCase, ctx: &mut CaseCtx| {
+        only_false_acceptance(prop, c, ctx, check_kzg)
+    }));
+    units.push(PropUnit::new(format!("{prop}:skzg:correlated-false-claims"), 100, 1000, 2, |_| sk_case().boxed(), move |c: &SkCase, ctx: &mut CaseCtx| {
+        only_false_acceptance(prop, c, ctx, check_sk)
+    }));
+    units
 }
 
 pub fn spec() -> PropertySpec {
